@@ -140,11 +140,21 @@ type c39Verdict struct {
 
 // c39Judge applies the statement to (rendered objects, metadata). Every
 // violation carries the spec and what was observed.
-func c39Judge(r *verifkit.Run, oc *opCase, rd *c39Rendered, meta metadata.ClusterMetadata, via string) c39Verdict {
+func c39Judge(r0 *verifkit.Run, oc *opCase, rd *c39Rendered, meta metadata.ClusterMetadata, via string, hist *c39Hist) c39Verdict {
 	cl := oc.Cluster
+	// a verdict reached after spec edits gets its own class prefix: it is a
+	// different way of breaking the statement than a wrong first publish
+	r := &c39Reporter{Run: r0}
+	if hist != nil && len(hist.Edits) > 0 {
+		r.tag = "after_spec_edit_"
+	}
 	replay := func(extra map[string]any) map[string]any {
 		m := opDescribe(oc)
 		m["metadata_via"] = via
+		if hist != nil && len(hist.Edits) > 0 {
+			m["first_published_spec"] = hist.Initial
+			m["edits_each_followed_by_a_publish"] = hist.Edits
+		}
 		var bs []string
 		for _, b := range meta.Brokers {
 			bs = append(bs, fmt.Sprintf("%d@%s:%d", b.NodeID, b.Host, b.Port))
@@ -300,6 +310,22 @@ func c39Judge(r *verifkit.Run, oc *opCase, rd *c39Rendered, meta metadata.Cluste
 	return v
 }
 
+// c39Hist: what was published before the spec that is being judged.
+type c39Hist struct {
+	Initial json.RawMessage // opDescribe of the spec of the first publish
+	Edits   []string        // the edits since, each followed by a publish
+}
+
+// c39Reporter prefixes violation classes; everything else is the Run's.
+type c39Reporter struct {
+	*verifkit.Run
+	tag string
+}
+
+func (r *c39Reporter) Violation(class, summary string, replay any) {
+	r.Run.Violation(r.tag+class, summary, replay)
+}
+
 func c39Keys(m map[int32]int) []int32 {
 	var ks []int32
 	for k := range m {
@@ -418,7 +444,7 @@ func TestVerifC39Render(t *testing.T) {
 				rd.buckets[b] = "snapshotBucket()"
 			}
 		}
-		v := c39Judge(r, oc, rd, meta, "BuildClusterMetadata")
+		v := c39Judge(r, oc, rd, meta, "BuildClusterMetadata", nil)
 		r.Case(verifkit.Hash(opDescribe(oc)), v.nontrivial)
 		r.Count("replicas_"+c39ReplicaTag(oc.Cluster), 1)
 		if v.hostKind != "" {
@@ -506,9 +532,267 @@ func c39ScaleDownProbe(ctx context.Context, t *testing.T, r *verifkit.Run, cli *
 	}
 }
 
+// ---------------------------------------------------------------- edit sequences (publish leg)
+
+type c39Seq struct {
+	t    *testing.T
+	r    *verifkit.Run
+	cli  *clientv3.Client
+	c    client.Client
+	rc   *ClusterReconciler
+	tr   *TopicReconciler
+	oc   *opCase // kept in step with the resources on the API server
+	ci   int
+	hist *c39Hist
+	rd   *c39Rendered // objects rendered for the spec published last
+	brk0 kafscalev1alpha1.BrokerSpec
+}
+
+func c39PortStr(p *int32) string {
+	if p == nil {
+		return "unset"
+	}
+	return strconv.Itoa(int(*p))
+}
+
+func c39RepStr(p *int32) string {
+	if p == nil {
+		return "unset"
+	}
+	return strconv.Itoa(int(*p))
+}
+
+// c39EditBrokers changes the stored cluster's broker spec as kind says and returns what it did ("" = nothing to change).
+func (q *c39Seq) editBrokers(rng interface{ Intn(int) int }, b *kafscalev1alpha1.BrokerSpec, kind string, step int) string {
+	var did []string
+	port := func() {
+		old := c39PortStr(b.AdvertisedPort)
+		for c39PortStr(b.AdvertisedPort) == old {
+			switch rng.Intn(6) {
+			case 0:
+				b.AdvertisedPort = nil
+			case 1:
+				b.AdvertisedPort = opI32(9092)
+			case 2:
+				b.AdvertisedPort = opI32(0)
+			default:
+				b.AdvertisedPort = opI32(int32(1024 + rng.Intn(60000)))
+			}
+		}
+		did = append(did, fmt.Sprintf("advertisedPort %s -> %s", old, c39PortStr(b.AdvertisedPort)))
+	}
+	host := func() {
+		old := b.AdvertisedHost
+		for b.AdvertisedHost == old {
+			switch rng.Intn(6) {
+			case 0:
+				b.AdvertisedHost = ""
+			case 1:
+				b.AdvertisedHost = fmt.Sprintf("  kafka-%d-%d.example.net ", q.ci, step)
+			case 2:
+				b.AdvertisedHost = fmt.Sprintf("198.51.100.%d", 1+rng.Intn(250))
+			default:
+				b.AdvertisedHost = fmt.Sprintf("kafka-%d-%d.example.com", q.ci, step)
+			}
+		}
+		did = append(did, fmt.Sprintf("advertisedHost %q -> %q", old, b.AdvertisedHost))
+	}
+	replicas := func() {
+		old := c39RepStr(b.Replicas)
+		for c39RepStr(b.Replicas) == old {
+			switch rng.Intn(7) {
+			case 0:
+				b.Replicas = nil
+			case 1, 2:
+				b.Replicas = opI32(1)
+			case 3:
+				b.Replicas = opI32(2)
+			case 4:
+				b.Replicas = opI32(3)
+			default:
+				b.Replicas = opI32(int32(4 + rng.Intn(4)))
+			}
+		}
+		did = append(did, fmt.Sprintf("replicas %s -> %s", old, c39RepStr(b.Replicas)))
+	}
+	switch kind {
+	case "port":
+		port()
+	case "host":
+		host()
+	case "host+port":
+		host()
+		port()
+	case "replicas":
+		replicas()
+	case "replicas_to_1":
+		old := c39RepStr(b.Replicas)
+		b.Replicas = opI32(1)
+		did = append(did, fmt.Sprintf("replicas %s -> 1", old))
+	case "replicas+address":
+		replicas()
+		if rng.Intn(2) == 0 {
+			port()
+		}
+		if rng.Intn(2) == 0 || len(did) == 1 {
+			host()
+		}
+	case "revert":
+		if c39PortStr(b.AdvertisedPort) == c39PortStr(q.brk0.AdvertisedPort) && b.AdvertisedHost == q.brk0.AdvertisedHost && c39RepStr(b.Replicas) == c39RepStr(q.brk0.Replicas) {
+			port()
+			break
+		}
+		b.AdvertisedHost, b.AdvertisedPort, b.Replicas = q.brk0.AdvertisedHost, q.brk0.AdvertisedPort, q.brk0.Replicas
+		did = append(did, fmt.Sprintf("brokers back to the first spec (host %q port %s replicas %s)", b.AdvertisedHost, c39PortStr(b.AdvertisedPort), c39RepStr(b.Replicas)))
+	}
+	return strings.Join(did, ", ")
+}
+
+// publishAndJudge runs one of the operator's reconcilers and judges the snapshot it leaves in etcd against the latest resources.
+func (q *c39Seq) publishAndJudge(ctx context.Context, viaTopic *kafscalev1alpha1.KafscaleTopic) bool {
+	key := types.NamespacedName{Namespace: q.oc.Cluster.Namespace, Name: q.oc.Cluster.Name}
+	rctx, cancel := context.WithTimeout(ctx, 60*time.Second)
+	var err error
+	var res reconcile.Result
+	via := "ClusterReconciler"
+	if viaTopic != nil {
+		via = "TopicReconciler(" + viaTopic.Name + ")"
+		res, err = q.tr.Reconcile(rctx, reconcile.Request{NamespacedName: types.NamespacedName{Namespace: viaTopic.Namespace, Name: viaTopic.Name}})
+	} else {
+		res, err = q.rc.Reconcile(rctx, reconcile.Request{NamespacedName: key})
+	}
+	cancel()
+	if err != nil || res.RequeueAfter != 0 {
+		q.r.Count("edit_publish_errors", 1)
+		q.t.Logf("case %d: %s after edit did not publish: err=%v requeue=%v", q.ci, via, err, res.RequeueAfter)
+		return false
+	}
+	meta, _, ok := c39ReadSnapshot(ctx, q.r, q.cli, q.oc, q.ci)
+	if !ok {
+		return false
+	}
+	var stored kafscalev1alpha1.KafscaleCluster
+	if err := q.c.Get(ctx, key, &stored); err != nil {
+		q.t.Fatalf("get cluster: %v", err)
+	}
+	q.rd = c39Collect(ctx, q.t, q.c, &stored)
+	c39Judge(q.r, q.oc, q.rd, meta, fmt.Sprintf("%s after %d edit(s) -> etcd %s", via, len(q.hist.Edits), c39SnapshotKey), q.hist)
+	q.r.Count("edit_publishes_judged", 1)
+	return true
+}
+
+// c39RenderedAddr: what the rendered pods are told about their own address and how many there are.
+func c39RenderedAddr(rd *c39Rendered) (host, port, replicas string) {
+	if rd == nil || rd.sts == nil || rd.sts.Spec.Replicas == nil {
+		return "", "", ""
+	}
+	return rd.hostEnv, rd.portEnv, strconv.Itoa(int(*rd.sts.Spec.Replicas))
+}
+
+// run performs n edits, each followed by one or two publishes through the real
+// reconcilers. Edits never remove topics (PublishMetadataSnapshot merges topics
+// it no longer knows from the stored snapshot; that is the scale-down probe's observation).
+func (q *c39Seq) run(ctx context.Context, rng interface{ Intn(int) int }, n int) {
+	key := types.NamespacedName{Namespace: q.oc.Cluster.Namespace, Name: q.oc.Cluster.Name}
+	forced := ""
+	for step := 1; step <= n; step++ {
+		kind := []string{"port", "port", "host", "host", "host+port", "replicas", "replicas+address", "revert", "topic_added", "partitions_grown", "topic+address"}[rng.Intn(11)]
+		if step == 1 && rng.Intn(3) == 0 {
+			kind = []string{"port", "host", "host+port"}[rng.Intn(3)] // only the advertised address, straight after the first publish
+		}
+		if forced != "" {
+			kind, forced = forced, ""
+		} else if rep := q.oc.Cluster.Spec.Brokers.Replicas; (kind == "host" || kind == "host+port") && step < n && (rep == nil || *rep != 1) && rng.Intn(2) == 0 {
+			// the advertised host only reaches the metadata of a single-broker cluster: go there first (own edit, own publish)
+			kind, forced = "replicas_to_1", kind
+		}
+		var did []string
+		var edited *kafscalev1alpha1.KafscaleTopic
+		clusterEdit := false
+		if kind == "topic_added" || kind == "topic+address" || (kind == "partitions_grown" && len(q.oc.Topics) == 0) {
+			tp := &kafscalev1alpha1.KafscaleTopic{
+				ObjectMeta: metav1.ObjectMeta{Namespace: q.oc.Cluster.Namespace, Name: fmt.Sprintf("added-%d-%d", q.ci, step)},
+				Spec:       kafscalev1alpha1.KafscaleTopicSpec{ClusterRef: q.oc.Cluster.Name, Partitions: int32(1 + rng.Intn(12))},
+			}
+			if err := q.c.Create(ctx, tp.DeepCopy()); err != nil {
+				q.t.Fatalf("create topic: %v", err)
+			}
+			q.oc.Topics = append(q.oc.Topics, tp)
+			edited = tp
+			did = append(did, fmt.Sprintf("topic %s added (%d partitions)", tp.Name, tp.Spec.Partitions))
+		} else if kind == "partitions_grown" {
+			tp := q.oc.Topics[rng.Intn(len(q.oc.Topics))]
+			var cur kafscalev1alpha1.KafscaleTopic
+			if err := q.c.Get(ctx, types.NamespacedName{Namespace: tp.Namespace, Name: tp.Name}, &cur); err != nil {
+				q.t.Fatalf("get topic: %v", err)
+			}
+			old := cur.Spec.Partitions
+			cur.Spec.Partitions = old + int32(1+rng.Intn(4))
+			if err := q.c.Update(ctx, &cur); err != nil {
+				q.t.Fatalf("update topic: %v", err)
+			}
+			tp.Spec.Partitions = cur.Spec.Partitions
+			edited = tp
+			did = append(did, fmt.Sprintf("topic %s partitions %d -> %d", tp.Name, old, cur.Spec.Partitions))
+		}
+		if kind != "topic_added" && kind != "partitions_grown" {
+			var cur kafscalev1alpha1.KafscaleCluster
+			if err := q.c.Get(ctx, key, &cur); err != nil {
+				q.t.Fatalf("get cluster: %v", err)
+			}
+			bk := kind
+			if kind == "topic+address" {
+				bk = []string{"port", "host", "host+port"}[rng.Intn(3)]
+			}
+			if d := q.editBrokers(rng, &cur.Spec.Brokers, bk, step); d != "" {
+				if err := q.c.Update(ctx, &cur); err != nil {
+					q.t.Fatalf("update cluster: %v", err)
+				}
+				q.oc.Cluster.Spec.Brokers = *cur.Spec.Brokers.DeepCopy()
+				did = append(did, d)
+				clusterEdit = true
+			}
+		}
+		if len(did) == 0 {
+			continue
+		}
+		q.hist.Edits = append(q.hist.Edits, strings.Join(did, "; "))
+		q.r.Count("edits_"+kind, 1)
+		h0, p0, n0 := c39RenderedAddr(q.rd)
+		// the publish the controllers would run for this edit: the cluster controller for
+		// a cluster edit, the topic controller (or the cluster controller) for a topic edit
+		var via *kafscalev1alpha1.KafscaleTopic
+		if !clusterEdit && edited != nil && rng.Intn(2) == 0 {
+			via = edited
+		}
+		if !q.publishAndJudge(ctx, via) {
+			return
+		}
+		h1, p1, n1 := c39RenderedAddr(q.rd)
+		if clusterEdit && n0 == n1 && edited == nil && (h0 != h1 || p0 != p1) {
+			q.r.Count("edit_publishes_where_only_the_pod_address_changed", 1)
+			if h0 != h1 {
+				q.r.Count("edit_publishes_where_the_advertised_host_changed", 1)
+			}
+			if p0 != p1 {
+				q.r.Count("edit_publishes_where_the_advertised_port_changed", 1)
+			}
+		}
+		if n0 != n1 {
+			q.r.Count("edit_publishes_where_replicas_changed", 1)
+		}
+		// a second publish of the same resources through the other controller must leave the same truth
+		if len(q.oc.Topics) > 0 && rng.Intn(3) == 0 {
+			if !q.publishAndJudge(ctx, q.oc.Topics[rng.Intn(len(q.oc.Topics))]) {
+				return
+			}
+		}
+	}
+}
+
 func TestVerifC39Publish(t *testing.T) {
 	r := verifkit.Start(t, "C39", "publish")
-	defer r.Finish("[full ClusterReconciler.Reconcile, then TopicReconciler.Reconcile, with an external-etcd spec against an embedded etcd; the metadata judged is the JSON read back from "+c39SnapshotKey+" after each; a scale-down-after-topic-removal probe is observation only (obs_*)] "+c39Rule, c39Assumptions...)
+	defer r.Finish("[full ClusterReconciler.Reconcile, then TopicReconciler.Reconcile, with an external-etcd spec against an embedded etcd; the metadata judged is the JSON read back from "+c39SnapshotKey+" after each; then 1-3 edits of the resources on the API server (only advertisedHost; only advertisedPort; both; replicas; replicas plus address; back to the first broker spec; a topic added; partitions of a topic grown; topic plus address - never a topic removal), each followed by the publish its controller would run (ClusterReconciler, or TopicReconciler for a topic edit, in a third of the steps a second publish through the TopicReconciler) on top of the snapshot already stored, and the snapshot read back is judged by the same oracle against the LATEST spec, topics and the objects rendered for them (classes prefixed after_spec_edit_); a scale-down-after-topic-removal probe is observation only (obs_*)] "+c39Rule, c39Assumptions...)
 	opRegisterEnv(t)
 	opScratchTmp(t)
 	endpoints := testutil.StartEmbeddedEtcd(t)
@@ -540,6 +824,8 @@ func TestVerifC39Publish(t *testing.T) {
 			r.Inconclusive(fmt.Sprintf("case %d: etcd delete: %v", ci, derr))
 			continue
 		}
+		first, _ := json.Marshal(opDescribe(oc))
+		sig := []any{string(first)}
 		rec := &opRecorder{}
 		c := opNewClient(scheme, rec, opObjects(oc)...)
 		rc := &ClusterReconciler{Client: c, Scheme: scheme, Publisher: NewSnapshotPublisher(c)}
@@ -562,7 +848,7 @@ func TestVerifC39Publish(t *testing.T) {
 			t.Fatalf("get cluster: %v", err)
 		}
 		rd := c39Collect(ctx, t, c, &stored)
-		v := c39Judge(r, oc, rd, meta, "etcd "+c39SnapshotKey)
+		v := c39Judge(r, oc, rd, meta, "etcd "+c39SnapshotKey, nil)
 		// decoy topics (other cluster / other namespace) are not topics of this cluster
 		for _, d := range oc.Decoys {
 			for _, tp := range meta.Topics {
@@ -583,15 +869,27 @@ func TestVerifC39Publish(t *testing.T) {
 			tcancel()
 			if derr == nil && terr == nil && tres.RequeueAfter == 0 {
 				if m2, _, ok := c39ReadSnapshot(ctx, r, cli, oc, ci); ok {
-					c39Judge(r, oc, rd, m2, "TopicReconciler -> etcd "+c39SnapshotKey)
+					c39Judge(r, oc, rd, m2, "TopicReconciler -> etcd "+c39SnapshotKey, nil)
 					r.Count("published_via_topic_reconciler", 1)
 				}
 			} else {
 				r.Inconclusive(fmt.Sprintf("case %d: TopicReconciler did not publish: %v %v", ci, derr, terr))
 			}
 		}
+		// 1-3 spec edits, each published through the real path on top of the snapshot already in etcd
+		{
+			q := &c39Seq{t: t, r: r, cli: cli, c: c, rc: rc, tr: &TopicReconciler{Client: c, Scheme: scheme, Publisher: NewSnapshotPublisher(c)},
+				oc: oc, ci: ci, hist: &c39Hist{Initial: first}, rd: rd, brk0: *oc.Cluster.Spec.Brokers.DeepCopy()}
+			q.run(ctx, rng, 1+rng.Intn(3))
+			r.Count("edit_sequences", 1)
+			r.Seen("publishes_per_case", strconv.Itoa(1+len(q.hist.Edits)))
+			if err := c.Get(ctx, key, &stored); err != nil {
+				t.Fatalf("get cluster: %v", err)
+			}
+			sig = append(sig, q.hist.Edits)
+		}
 		c39ScaleDownProbe(ctx, t, r, cli, c, rc, oc, &stored, ci)
-		r.Case(verifkit.Hash(opDescribe(oc)), v.nontrivial)
+		r.Case(verifkit.Hash(sig...), v.nontrivial)
 		r.Count("replicas_"+c39ReplicaTag(oc.Cluster), 1)
 		r.Count("published", 1)
 		if v.hostKind != "" {
@@ -604,4 +902,8 @@ func TestVerifC39Publish(t *testing.T) {
 	r.Floor("published", int64(n*9/10))
 	r.Floor("published_via_topic_reconciler", int64(n/2))
 	r.Floor("partitions_checked", 50)
+	r.Floor("edit_publishes_judged", int64(n))
+	r.Floor("edit_publishes_where_only_the_pod_address_changed", int64(n/5))
+	r.Floor("edit_publishes_where_the_advertised_port_changed", int64(n/8))
+	r.Floor("edit_publishes_where_the_advertised_host_changed", 2)
 }
